@@ -14,3 +14,4 @@ import AITB.Props.C09g
 import AITB.Props.C09h
 import AITB.Props.C09i
 import AITB.Props.C09j
+import AITB.Props.C09k
